@@ -11,7 +11,6 @@ from collections import Counter
 from copy import deepcopy
 from functools import reduce
 from itertools import count
-from textwrap import dedent
 from types import TracebackType
 
 from .selector import Element, check_element
@@ -1179,7 +1178,13 @@ def transform(fn, proceed, to_instrument=True, set_conformer=True):
     if to_instrument is True:
         to_instrument = [_GENERIC]
 
-    src = dedent(inspect.getsource(fn))
+    src = inspect.getsource(fn)
+    # An indented definition (a method, a nested function) is parsed as the
+    # body of a block. Dedenting the text would also change the multi-line
+    # strings in it, and is not always possible.
+    shift = 1 if src[:1] in (" ", "\t") else 0
+    if shift:
+        src = "if 1:\n" + src
 
     # Scrape the comments in the function's source and map them to lines.
     comments = {}
@@ -1198,6 +1203,8 @@ def transform(fn, proceed, to_instrument=True, set_conformer=True):
     filename = inspect.getsourcefile(fn)
     tree = ast.parse(src, filename)
     tree = tree.body[0]
+    if shift:
+        tree = tree.body[0]
     assert isinstance(tree, ast.FunctionDef)
     tree.decorator_list = []
 
@@ -1235,7 +1242,7 @@ def transform(fn, proceed, to_instrument=True, set_conformer=True):
     _strip_signature(new_tree)
     ast.fix_missing_locations(new_tree)
     _, lineno = inspect.getsourcelines(fn)
-    ast.increment_lineno(new_tree, lineno - 1)
+    ast.increment_lineno(new_tree, lineno - 1 - shift)
     freevars = fn.__code__.co_freevars
     new_fn = _compile(filename, new_tree, freevars)
 
@@ -1292,7 +1299,7 @@ def transform(fn, proceed, to_instrument=True, set_conformer=True):
             "location": (
                 filename,
                 fn,
-                transformer.linenos[k] + lineno - 1
+                transformer.linenos[k] + lineno - 1 - shift
                 if k in transformer.linenos
                 else None,
             ),
